@@ -168,7 +168,7 @@ func (d *Disk) OsOp(op string, paths ...string) error {
 	}
 	if err != nil {
 		rec.Err, rec.Inj = err.Error(), true
-		d.sim.stats["osfault."+op]++
+		d.sim.stat("osfault." + op)
 	}
 	d.mu.Lock()
 	d.OsLog = append(d.OsLog, rec)
@@ -299,7 +299,7 @@ func (f *faultyStorage) op(name, file string, size int, torn func(n int)) (error
 		d.StLog = append(d.StLog, rec)
 	}
 	if err != nil {
-		d.sim.stats["stfault."+name]++
+		d.sim.stat("stfault." + name)
 	}
 	return err, short
 }
@@ -399,7 +399,7 @@ func (r simReader) ReadAt(p []byte, off int64) (int, error) {
 		d.stN++
 		k := d.stN
 		if e := d.StReadBad(int(k), r.file, off, p[:n]); e != nil {
-			d.sim.stats["stfault.readat"]++
+			d.sim.stat("stfault.readat")
 			return 0, e
 		}
 	}
@@ -415,7 +415,7 @@ func (r simReader) Read(p []byte) (int, error) {
 		d.stN++
 		k := d.stN
 		if e := d.StReadBad(int(k), r.file, -1, p[:n]); e != nil {
-			d.sim.stats["stfault.read"]++
+			d.sim.stat("stfault.read")
 			return 0, e
 		}
 	}
